@@ -53,6 +53,7 @@ def main():
     run.coq_gate()
     cp.proto_component_check(run, {'C04'}, run.n(120, 3000), run.n(200, 6000))
     cp.publish_fault_cases(run, run.n(12, 200))
+    cp.glue_cases(run)      # the relay clause: what a relay's sender replies (also when it discards) is what its receiver asks upstream for next
     rng = run.rng
     for it in range(run.n(14, 300)):
         topo = rng.choice(['sole', 'relay', 'several'])
